@@ -55,11 +55,11 @@ def run(ctx):
                 raise vlib.HarnessError("no shapes of family %s" % f)
         rec = os.path.join(d, "records.ndjson")
         if ctx.quick:
-            mutk, trunck, stack, ops = "12", "12", "6", "core"
+            mutk, trunck, stack, ops, cpums = "12", "12", "6", "core", "400"
         else:
-            mutk, trunck, stack, ops = "60", "40", "64", "all"
+            mutk, trunck, stack, ops, cpums = "60", "40", "64", "all", "1500"
         p = vlib.sh([binp, "c08", "--in", cases, "--out", rec, "--repo", vlib.REPO, "--workers", "8", "--mutk", mutk, "--trunck", trunck,
-                     "--maxstack-mb", stack, "--cpu-ms", "1500", "--cpu-ns-per-byte", "20000", "--ops", ops], timeout=3500)
+                     "--maxstack-mb", stack, "--cpu-ms", cpums, "--cpu-ns-per-byte", "20000", "--ops", ops], timeout=3500)
         summ = _summary(p)
         rows = vlib.read_ndjson(rec)
         if summ["cases"] != ncase or len(rows) != ncase:
